@@ -769,3 +769,22 @@ Definition a_replace1 (s : byte) (repl : bytes) (data : bytes) : bytes :=
 
 (* the charmap decoder *)
 Definition a_decode (cp : byte -> bytes) (data : bytes) : bytes := flat_map cp data.
+
+(* Reading any (total) reader to the end with reads of a fixed size. *)
+Section DrainAny.
+  Variable St : Type.
+  Variable sread : St -> nat -> rres * St.
+  Fixpoint drain_rd (fuel cap : nat) (x : St) : outcome (bytes * ioerr) :=
+    match fuel with
+    | O => OutOfFuel
+    | S k =>
+        let '((c, oe), x') := sread x cap in
+        match oe with
+        | Some e => Ok (c, e)
+        | None => match drain_rd k cap x' with
+                  | Ok (d, e) => Ok (c ++ d, e)
+                  | o => o
+                  end
+        end
+    end.
+End DrainAny.
